@@ -5,6 +5,7 @@
 From Coq Require Import ZArith List Bool.
 Import ListNotations.
 Require Import SZV.Model.Quant SZV.Model.QuantInt SZV.Proofs.QuantInt_proofs.
+Require Import SZV.Model.Consistency SZV.Proofs.Consistency_proofs.
 Local Open Scope Z_scope.
 
 (* the decoder reproduces the encoder's reconstruction: every array, rank 1..3 (4-D = independent
@@ -43,6 +44,11 @@ Theorem C03_narrowing_refuted : exists p x,
   end.
 Proof. exact narrowing_refuted. Qed.
 Print Assumptions C03_narrowing_refuted.
+
+(* read from the source on every run: each integer type's entry points hand the value-range scan their own type tag (the range, hence every range-relative bound, is the type's own reading of the data) *)
+Theorem C03_range_scan_type_tags : int_range_tags_ok = true.
+Proof. exact int_range_tags_hold. Qed.
+Print Assumptions C03_range_scan_type_tags.
 
 Example C03_ex :
   let c := {| e := 2; cap := 32; shape := [2; 3]; ty := ity_of 7 |} in
